@@ -379,6 +379,12 @@ def run(ctx, host=None):
     nf = option_forwarding(ctx, chk, R6, ['compress', 'compress_mode'])
     chk.require(nf >= 3, f'expected >= 3 forwarding sites of compress, found {nf}')
 
+    # rules of other properties that are necessary conditions of this one too: what is read back after (re)packing is right only if the index and
+    # the pack files agree at every step of the writers and of the repack hand-over (C03)
+    if host is None:
+        from ..report import host_modules
+        host_modules(chk, ctx, ['C03'])
+
     return chk.finish(
         explanation=('Static checks of the compression logic: exhaustive and constant mode table of should_compress, def-use agreement between the flag stored in the index '
                      'row and the value that selects the compressing branch (decided per object on every path of the repack loop), a position-restore typestate on '
